@@ -50,7 +50,34 @@ def _ops(draw, kind, d):
 
 
 @st.composite
+def _pt_scenario(draw):
+    """Chains run under the real ParallelTempering (process simulation of C08): exchanges install
+    foreign points; every stored log-probability must still belong to its sample."""
+    n = draw(st.sampled_from([2, 3, 3, 4, 5]))
+    d = draw(st.integers(1, 2))
+    temps = [draw(st.sampled_from([1.0, 1.0, 2.0]))]
+    for _ in range(n - 1):
+        temps.append(round(temps[-1] * draw(st.sampled_from([1.3, 2.0, 3.0])), 4))
+    ops = []
+    for _ in range(draw(st.integers(1, 4))):
+        k = draw(st.sampled_from(["swap", "swap", "take_steps", "advance"]))
+        if k == "swap":
+            ops.append(["swap"])
+        elif k == "take_steps":
+            ops.append(["take_steps", draw(st.integers(0, 6))])
+        else:
+            ops.append(["advance", draw(st.integers(0, 30)), draw(st.sampled_from([1, 2, 5]))])
+    return dict(pt=dict(chain=draw(st.sampled_from(["gibbs", "metropolis", "pca", "hmc"])), n=n, d=d, target=dict(kind="gauss", d=d),
+                        temps=temps, bounded=False, same_start=draw(st.booleans()), seed=draw(st.integers(0, 2 ** 32 - 1)),
+                        display=draw(st.booleans()), ops=ops, snap=True, scheds=[], eval_cost=1e-4, hmc_steps=3, pca_update=7,
+                        shutdown=True),
+                sched=dict(seed=draw(st.integers(0, 2 ** 31 - 1)), stall_p=0.0, long_lat_p=0.0, pipe_cap=None, speed_spread=4.0))
+
+
+@st.composite
 def _scenario(draw, tier):
+    if draw(st.integers(0, 9)) == 0:
+        return draw(_pt_scenario())
     cfg = draw(lc.sampler_config(max_d=3))
     g = draw(st.sampled_from([1, 2, 2, 3, 4]))
     return dict(
@@ -184,7 +211,26 @@ def traj_digest(h):
                    hashlib.sha256(np.ascontiguousarray(P).tobytes()).hexdigest()])
 
 
+def execute_pt(sc):
+    from checks import c08
+
+    r = c08.run_pt(sc["pt"], sc["sched"], canonical=False)
+    V = []
+    for v in r["violations"]:
+        if v["invariant"] in ("chain.probs_belong", "swap.retemper", "swap.handover", "return.complete", "op.raised", "worker.died"):
+            _viol(V, "pt." + v["invariant"], v["detail"])
+    stats = collections.Counter({"mode_pt": 1})
+    for k in ("rows_checked", "probe_swap_exchanged", "probe_exchanges_inside_advance"):
+        stats[k] += r["stats"].get(k, 0)
+    stats["fault_exchange_installs_foreign_point"] += r["stats"].get("probe_swap_exchanged", 0) + r["stats"].get("probe_exchanges_inside_advance", 0)
+    return dict(violations=V, stats=dict(stats), digest=digest([r["events_digest"], digest(sc)]),
+                nontrivial=stats["fault_exchange_installs_foreign_point"] > 0,
+                shape="pt/%s/%d" % (sc["pt"]["chain"], sc["pt"]["n"]), sim_seconds=r["sim_seconds"])
+
+
 def execute(sc):
+    if "pt" in sc:
+        return execute_pt(sc)
     stats = collections.Counter()
     V = []
     cfg = sc["cfg"]
